@@ -264,6 +264,10 @@ func (st *StateDB) UpdateDelegation(d common.Address, val *Validator, tokenChang
 	dfrom.Stake.Set(newStake)
 
 	newVal := val.PartialCopy()
+	// PartialCopy shares the Delegations slice with val, and UpdateDelegationFrom edits the slice in
+	// place; give the new record its own slice so that val (the journalled old record) stays intact.
+	newVal.Delegations = make(DelegationFroms, len(val.Delegations), len(val.Delegations)+1)
+	copy(newVal.Delegations, val.Delegations)
 	newVal.Token.Add(newVal.Token, tokenChanged)
 	newVal.Stake.Add(newVal.Stake, delta)
 
